@@ -838,7 +838,7 @@ Proof.
   unfold apply_entries. cbn. by rewrite lookup_insert.
 Qed.
 
-(** the class of F8 is decidable *)
+(** [layers_safe] is decidable *)
 Lemma single_normalb_spec r : single_normalb r = true ↔ single_normal r.
 Proof.
   unfold single_normal. split.
@@ -857,9 +857,4 @@ Proof.
   unfold layers_safeb, layers_safe. rewrite forallb_forall, Forall_forall. split; intros H l Hl.
   - apply layer_safeb_spec, H. by apply elem_of_list_In.
   - apply layer_safeb_spec, H. by apply elem_of_list_In.
-Qed.
-Lemma F8_decidable f : layers_safe f ∨ KnownClass_F8 f.
-Proof.
-  destruct (layers_safeb f) eqn:E; [left; by apply layers_safeb_spec|].
-  right. intros H%layers_safeb_spec. congruence.
 Qed.
